@@ -399,7 +399,6 @@ pub fn spaces(tier: Tier, _seed: u64) -> Vec<Box<dyn Space>> {
     }
     if tier.is_thorough() {
         v.push(Box::new(Seqs::new(0, 4)));
-        v.push(Box::new(Seqs::new(1, 4)));
     }
     v
 }
